@@ -20,6 +20,20 @@ pub enum Art {
 	Crl(CrlCase),
 }
 
+/// Certificates for RSA subject keys (several fixture keys of one size), serial left to rcgen.
+fn rsa_art() -> BoxedStrategy<Art> {
+	(cert_case(CertGenOpts::FULL, true), 0u8..3, any::<bool>())
+		.prop_map(|(mut c, idx, auto)| {
+			c.key = KeySpec { alg: KeyAlg::Rsa2048, idx, rsa_hash: RsaHash::Sha256, remote: !cfg!(feature = "crypto") };
+			c.pk_source = PkSource::KeyPair;
+			if auto && cfg!(feature = "crypto") {
+				c.spec.serial = None;
+			}
+			Art::Cert(c)
+		})
+		.boxed()
+}
+
 fn art(cheap: bool) -> BoxedStrategy<Art> {
 	prop_oneof![
 		3 => (cert_case(CertGenOpts::FULL, cheap), prop::bool::weighted(0.2)).prop_map(|(mut c, unset_serial)| {
@@ -342,14 +356,17 @@ pub fn check_threads(t: &ThreadCase, info: &mut CaseInfo) -> Result<(), String> 
 pub fn child_main() {
 	let mut s = String::new();
 	std::io::Read::read_to_string(&mut std::io::stdin(), &mut s).expect("stdin");
-	let arts: Vec<Art> = serde_json::from_str(&s).expect("child input");
-	let out: Vec<String> = arts
-		.iter()
-		.map(|a| match env_for(a).and_then(|e| produce(a, &e)) {
+	// input: [arts, order] - the artefacts are produced in the given order, the answers are returned
+	// in the artefacts' own order
+	let (arts, order): (Vec<Art>, Vec<usize>) = serde_json::from_str(&s).expect("child input");
+	let mut out: Vec<String> = vec![String::new(); arts.len()];
+	for i in order {
+		let a = &arts[i];
+		out[i] = match env_for(a).and_then(|e| produce(a, &e)) {
 			Ok(p) => p.refused.map(|r| format!("REFUSED {r}")).unwrap_or_else(|| crate::der::hex(&p.tbs)),
 			Err(e) => format!("ERR {e}"),
-		})
-		.collect();
+		};
+	}
 	println!("{}", serde_json::to_string(&out).unwrap());
 }
 
@@ -364,7 +381,9 @@ pub fn check_processes(b: &ProcessBatch, info: &mut CaseInfo) -> Result<(), Stri
 	info.nontrivial_weight = (b.arts.len() as u64).saturating_sub(1);
 	info.class("fresh-processes:3");
 	let exe = std::env::current_exe().map_err(|e| e.to_string())?;
-	let input = serde_json::to_string(&b.arts).unwrap();
+	let n = b.arts.len();
+	// the children go through the batch in the same order, backwards, and from the middle outwards
+	let orders: [Vec<usize>; 3] = [(0..n).collect(), (0..n).rev().collect(), (0..n).map(|i| (i + n / 2) % n).collect()];
 	let local: Vec<String> = b
 		.arts
 		.iter()
@@ -384,6 +403,7 @@ pub fn check_processes(b: &ProcessBatch, info: &mut CaseInfo) -> Result<(), Stri
 			.stderr(Stdio::null())
 			.spawn()
 			.map_err(|e| format!("cannot spawn child: {e}"))?;
+		let input = serde_json::to_string(&(&b.arts, &orders[run])).unwrap();
 		child.stdin.take().unwrap().write_all(input.as_bytes()).map_err(|e| e.to_string())?;
 		let out = child.wait_with_output().map_err(|e| e.to_string())?;
 		let remote: Vec<String> = serde_json::from_slice(&out.stdout).map_err(|e| format!("child output unreadable: {e}"))?;
@@ -451,12 +471,17 @@ pub fn check_generated_key(_: &crate::props::c01::GenKeyCase, _: &mut CaseInfo) 
 pub fn def() -> PropertyDef {
 	PropertyDef {
 		id: "C15",
-		rule: "Generated certificates / CSRs / CRLs (names of up to 6 attributes; all key algorithms): (a) the same call twice with shared keys and again with rebuilt keys and issuer; (b) after a generated history of 0..6 other generation calls, some sharing the same keys and issuer; (c) 2..16 threads x 1..6 iterations sharing one &KeyPair and one issuer &Certificate; (d) batches evaluated in three fresh child processes (different hash-map seeds); (e) keys generated by rcgen (every algorithm; RSA 2048/3072 under aws-lc-rs) sign the same parameters twice. Oracle: identical to-be-signed byte range (cut out by the harness reader), identical complete output for Ed25519 and RSA PKCS#1 v1.5, the same error when the call is refused (e.g. no serial number in a build without a crypto back end), params() equal to the input, shared key and issuer unchanged. Non-trivial = name with >= 3 attributes, or >= 4 threads, or non-empty prefix, or a cross-process batch.",
+		rule: "Generated certificates / CSRs / CRLs (names of up to 6 attributes; all key algorithms): (a) the same call twice with shared keys and again with rebuilt keys and issuer; (b) after a generated history of 0..6 other generation calls, some sharing the same keys and issuer; (c) 2..16 threads x 1..6 iterations sharing one &KeyPair and one issuer &Certificate; (d) batches (with several RSA subject keys of one size among them) evaluated in three fresh child processes (different hash-map seeds; the same order, backwards, and from the middle outwards); (e) keys generated by rcgen (every algorithm; RSA 2048/3072 under aws-lc-rs) sign the same parameters twice. Oracle: identical to-be-signed byte range (cut out by the harness reader), identical complete output for Ed25519 and RSA PKCS#1 v1.5, the same error when the call is refused (e.g. no serial number in a build without a crypto back end), params() equal to the input, shared key and issuer unchanged. Non-trivial = name with >= 3 attributes, or >= 4 threads, or non-empty prefix, or a cross-process batch.",
 		assumptions: vec!["thread interleavings are sampled by the OS scheduler, not enumerated", "the harness reader finds the signed byte range"],
 		subs: vec![
 			prop_sub("repeat", 15_000, 300_000, || art(false), check_repeat),
 			prop_sub("history", 7_500, 150_000, || {
-				(art(true), proptest::collection::vec(art(true), 0..6)).prop_map(|(target, prefix)| HistoryCase { target, prefix }).boxed()
+				// (a share of the histories use the full key set: RSA keys of one size look alike at the front)
+				prop_oneof![
+					3 => (art(true), proptest::collection::vec(art(true), 0..6)).prop_map(|(target, prefix)| HistoryCase { target, prefix }),
+					1 => (rsa_art(), proptest::collection::vec(rsa_art(), 1..4)).prop_map(|(target, prefix)| HistoryCase { target, prefix }),
+				]
+				.boxed()
 			}, check_history),
 			prop_sub("threads", 6_000, 60_000, || {
 				(art(true), any::<u8>(), any::<u8>(), proptest::collection::vec(art(true), 0..3)).prop_map(|(target, threads, iters, others)| ThreadCase { target, threads, iters, others }).boxed()
@@ -466,7 +491,14 @@ pub fn def() -> PropertyDef {
 					.prop_map(|(alg_idx, rsa_size, dn)| crate::props::c01::GenKeyCase { alg_idx, rsa_size, dn })
 					.boxed()
 			}, check_generated_key),
-			prop_sub("processes", 72, 600, || proptest::collection::vec(art(true), 20..40).prop_map(|arts| ProcessBatch { arts }).boxed(), check_processes),
+			prop_sub("processes", 72, 600, || {
+				(proptest::collection::vec(art(true), 20..40), proptest::collection::vec(rsa_art(), 2..5))
+					.prop_map(|(mut arts, rsa)| {
+						arts.extend(rsa);
+						ProcessBatch { arts }
+					})
+					.boxed()
+			}, check_processes),
 		],
 	}
 }
